@@ -937,3 +937,59 @@ Example C03Heap_run_bitsets :
   end = true.
 Proof. vm_compute. reflexivity. Qed.
 Print Assumptions C03Heap_run_bitsets.
+
+(** * after the repair of nni.Apply (e1.Right() == n1 || e2.Right() == n2) *)
+
+(** Apply keeps ANY good heap good, whatever the orientation of the three branches (wherever the
+    root is, in particular after any re-rooting between newNNI and Apply) *)
+Theorem C03Heap_nni_apply_good_any : forall h q hx hy hxm hym ec e1 e2 edc ed1 ed2,
+  let x := q_n1 q in let y := q_n2 q in let xm := q_n12 q in
+  let ym := if q_cross q then q_n21 q else q_n22 q in
+  Good h ->
+  alookup x (hnodes h) = Some hx -> alookup y (hnodes h) = Some hy ->
+  alookup xm (hnodes h) = Some hxm -> alookup ym (hnodes h) = Some hym ->
+  In (y, ec) (slots_of hx) -> alookup ec (hedges h) = Some edc ->
+  In (xm, e1) (slots_of hx) -> xm <> y -> alookup e1 (hedges h) = Some ed1 ->
+  In (ym, e2) (slots_of hy) -> ym <> x -> alookup e2 (hedges h) = Some ed2 ->
+  exists h', nni_apply_heap q h = HOk h' /\ Good h'.
+Proof. exact nni_apply_good_any. Qed.
+Print Assumptions C03Heap_nni_apply_good_any.
+
+(** closed runs: every proposal of three trees (nni objects made before), re-root at EVERY node,
+    Apply: the result represents the neighbour tree re-rooted at the same node *)
+Definition chk_nni_rr_apply (t : utree) (r : nni) : bool :=
+  let h := heap_of t in
+  match dump h with
+  | Some lt =>
+    match lnode_at lt (r_path r) with
+    | Some (LNode n1 _ _ _) =>
+      match alookup n1 (hnodes h) with
+      | Some hn1 =>
+        match nth_error (hneigh hn1) (r_k r) with
+        | Some n2 =>
+          match new_nni_heap h n1 n2 (r_cross r) with
+          | HOk q =>
+            match nni_apply_heap q h with
+            | HOk ha =>
+              forallb (fun n => match reroot_heap n h, reroot_heap n ha with
+                                | HOk hr, HOk har => match nni_apply_heap q hr with HOk h1 => abs_same h1 har | _ => false end
+                                | HErr _, HErr _ => true
+                                | _, _ => false end) (lids lt)
+            | _ => false
+            end
+          | _ => false
+          end
+        | None => false
+        end
+      | None => false
+      end
+    | None => false
+    end
+  | None => false
+  end.
+
+Example C03Heap_run_nni_reroot_apply :
+  forallb (chk_nni_rr_apply hx_deep) (nni_list hx_deep) && forallb (chk_nni_rr_apply hx_start) (nni_list hx_start) &&
+  forallb (chk_nni_rr_apply (rr_at hx_deep 3)) (nni_list (rr_at hx_deep 3)) = true.
+Proof. vm_compute. reflexivity. Qed.
+Print Assumptions C03Heap_run_nni_reroot_apply.
